@@ -13,17 +13,31 @@ import (
 
 // ModSet is the set of heap components a piece of code may write.
 type ModSet struct {
+	kinds map[string]bool // allocation kinds
 	comps map[string]*Sort
 	alloc bool
 	all   bool // dynamic call without contract: anything may change
 	why   string
 }
 
-func newModSet() *ModSet { return &ModSet{comps: map[string]*Sort{}} }
+func newModSet() *ModSet { return &ModSet{comps: map[string]*Sort{}, kinds: map[string]bool{}} }
+
+func (m *ModSet) allocKind(k string) {
+	m.setAlloc()
+	m.kinds[k] = true
+}
+
+func (m *ModSet) setAlloc() {
+	m.alloc = true
+	m.comps["Ty"] = SArr(SInt, SInt)
+}
 
 func (m *ModSet) add(o *ModSet) {
 	for k, v := range o.comps {
 		m.comps[k] = v
+	}
+	for k := range o.kinds {
+		m.kinds[k] = true
 	}
 	m.alloc = m.alloc || o.alloc
 	if o.all && !m.all {
@@ -94,7 +108,7 @@ func (e *Engine) instrMods(in ssa.Instruction, depth int, stack map[*ssa.Functio
 	m := newModSet()
 	switch x := in.(type) {
 	case *ssa.Alloc:
-		m.alloc = true
+		m.allocKind(kindOfPtr(x.Type()))
 		el := deref(x.Type())
 		if at, ok := el.Underlying().(*types.Array); ok {
 			addElemComps(m, at.Elem())
@@ -108,16 +122,16 @@ func (e *Engine) instrMods(in ssa.Instruction, depth int, stack map[*ssa.Functio
 	case *ssa.MapUpdate:
 		addMapComps(m, x.Map.Type())
 	case *ssa.MakeMap:
-		m.alloc = true
+		m.allocKind("M|" + typeKey(x.Type()))
 		addMapComps(m, x.Type())
 	case *ssa.MakeSlice:
-		m.alloc = true
+		m.allocKind("E|" + typeKey(elemOf(x.Type())))
 		addElemComps(m, elemOf(x.Type()))
 	case *ssa.MakeClosure:
-		m.alloc = true
+		m.allocKind("fn")
 	case *ssa.Convert:
 		if isByteSlice(x.Type().Underlying()) {
-			m.alloc = true
+			m.allocKind("E|uint8")
 			addElemComps(m, types.Typ[types.Uint8])
 		}
 	case *ssa.Range:
@@ -145,7 +159,7 @@ func (e *Engine) callMods(c *ssa.CallCommon, depth int, stack map[*ssa.Function]
 	if b, ok := c.Value.(*ssa.Builtin); ok {
 		switch b.Name() {
 		case "append":
-			m.alloc = true
+			m.allocKind("E|" + typeKey(elemOf(c.Args[0].Type())))
 			addElemComps(m, elemOf(c.Args[0].Type()))
 		case "delete":
 			addMapComps(m, c.Args[0].Type())
@@ -176,10 +190,10 @@ func (e *Engine) callMods(c *ssa.CallCommon, depth int, stack map[*ssa.Function]
 		}
 		m.all = true
 		m.why = "dynamic call " + c.String()
-		m.alloc = true
+		m.setAlloc()
 		return m
 	}
-	if ext := e.ext[callee.String()]; ext != nil {
+	if ext := e.extFor(callee); ext != nil {
 		m.add(ext.modsFor(e, c))
 		return m
 	}
@@ -189,7 +203,7 @@ func (e *Engine) callMods(c *ssa.CallCommon, depth int, stack map[*ssa.Function]
 			return m
 		}
 		// unknown external: fail closed at translation time; here assume alloc only
-		m.alloc = true
+		m.setAlloc()
 		return m
 	}
 	m.add(e.fnMods(callee, depth+1, stack))
@@ -200,7 +214,7 @@ func (e *Engine) callMods(c *ssa.CallCommon, depth int, stack map[*ssa.Function]
 // specMods: mod set of a contract-only callee (interface / function type).
 func (e *Engine) specMods(s *FuncSpec) *ModSet {
 	m := newModSet()
-	m.alloc = true
+	m.setAlloc()
 	if s.modAll {
 		m.all = true
 		m.why = "contract without assigns"
@@ -250,6 +264,7 @@ func (f *Frame) loopMods(l *Loop) {
 		l.mods[k] = true
 	}
 	l.modAll = ms.all
+	l.modset = ms
 	if ms.all {
 		f.unsupported("loop %d contains %s", l.ordinal, ms.why)
 	}
@@ -306,6 +321,9 @@ func (f *Frame) enterLoop(l *Loop, pre *State, prePhi map[*ssa.Phi]Val) *State {
 	l.hdr = hdr
 	l.hdrPhi = hdrPhi
 	f.closedFacts(hdr, names)
+	if ms := l.modset; ms != nil && ms.alloc {
+		f.kindFacts(hdr, pre.alloc, ms)
+	}
 	for _, p := range l.phis {
 		f.assumeWF(hdr, hdrPhi[p])
 	}
@@ -447,6 +465,29 @@ func (f *Frame) makeCandidates(l *Loop) {
 			cur := vc.get(st, k)
 			return Forall([]Term{r}, Imp(Lt(r, vc.A0), Eq(Select(cur, r), Select(entC, r))), []Term{Select(cur, r)})
 		})
+		// the fresh region is closed: objects allocated by this function hold
+		// only fresh-or-nil references in this component
+		if isRefComp(k) {
+			mk1("own:"+k, func(st *State, _ map[*ssa.Phi]Val) Term {
+				r := Term{"r!q", SInt}
+				cur := vc.get(st, k)
+				fresh := func(e Term) Term { return Or(Eq(e, Zero), Ge(e, vc.A0)) }
+				vc.registerComp("Ty", SArr(SInt, SInt))
+				mine := And(Le(vc.A0, r), Lt(r, st.alloc), Eq(Select(vc.get(st, "Ty"), r), vc.kindTag(kindOfComp(k))))
+				switch {
+				case strings.HasPrefix(k, "E|"):
+					j := Term{"j!q", SInt}
+					e := Select(Select(cur, r), j)
+					return Forall([]Term{r, j}, Imp(mine, fresh(e)), []Term{e})
+				case strings.HasPrefix(k, "Mv|"):
+					kk := Term{"k!q", cur.Sort.V.K}
+					e := Select(Select(cur, r), kk)
+					return Forall([]Term{r, kk}, Imp(mine, fresh(e)), []Term{e})
+				}
+				e := Select(cur, r)
+				return Forall([]Term{r}, Imp(mine, fresh(e)), []Term{e})
+			})
+		}
 		// objects existing before the loop are unchanged w.r.t. loop entry
 		mk1("frameL:"+k, func(st *State, _ map[*ssa.Phi]Val) Term {
 			r := Term{"r!q", SInt}
